@@ -27,6 +27,10 @@ def cases(rng, tier):
     N = 150 if tier == "quick" else 2500
     for _ in range(N):
         yield ("find_cuts", cutfind.gen_case(rng, tier))
+    # every registered two-qubit family once as the gate that has to be cut (its own overhead is then the reported one)
+    from .. import gen as _gen
+    for fam in _gen.FIXED_2Q + _gen.PARAM_2Q:
+        yield ("find_cuts", cutfind.gen_bridge(rng, tier, fam=fam))
 
 
 def model_line(kind, payload):
